@@ -48,6 +48,16 @@ RULE = ("(1) value tables: Nodes.typed_value on every text of length <= 3 over a
         "timestamp text / TIMESTAMP; any text / DEFAULT = that text) the set is not refused and the target and every scalar "
         "carrying its anchor denote the new value in the same type family (a date stays a date, a timestamp keeps local time "
         "and UTC offset; independent reading dt_den / dt_parse), anchor kept; dump + strict reload denotes the same.  "
+        "(8) real code only (set members as targets, aliases as mapping KEYS and aliases among set members are outside the "
+        "model), SEQUENCES of 1-3 sets on ONE Processor over documents loaded from YAML text: 1-4 anchored scalars (strings, "
+        "ints) aliased as mapping keys in first / middle / last position (`*a : v`), as mapping values, sequence items, flow-list "
+        "items and !!set members; !!sets as mapping values and as ELEMENTS OF SEQUENCES (also nested sequences); plain scalars "
+        "repeating the anchored values; each step targets an anchored scalar, one of its aliases, a plain or aliased set member "
+        "or a plain scalar with a fresh value; the oracle is a pure function on an independent tree reading of the document "
+        "(target slot and every key / value / item / member carrying its anchor hold the new value under the old anchor; key "
+        "order and everything else as before; set members as a multiset) and the next step starts from the oracle's tree; after "
+        "every step dump + strict reload = the oracle's data (skipped for documents whose UNEDITED form ruamel cannot dump: an "
+        "alias among set members); 1 500 documents quick / 15 000 thorough.  "
         "Sizes: quick 12 000 documents x 3 edits, 2 500 histories, 1 200 merge-key documents, 700 long-scalar and 900 date documents; thorough 150 000 documents x 3 "
         "edits, 40 000 histories, 12 000 merge-key documents, 8 000 long-scalar and 10 000 date documents (trimmed from 200 000 / 20 000 to keep the thorough tier under "
         "~20 min on a loaded 16-core machine; the value tables of (1) stay exhaustive in both tiers; all histories of one "
